@@ -1,10 +1,74 @@
 import TempestVerif.Drv.Util
-/- line-protocol handlers of property C03 (stub: no commands yet) -/
+import TempestVerif.Model.Kernel
+/-
+  line-protocol handlers of property C03 (Float only: the kernels use sqrt/log/exp)
+
+    kstep.F kind=<tpcn|rwm> d=<1..> u=<floats> mu=<floats> chol=<rows ; separated> invcov=<rows> nu=<f> sigma=<f>
+            beta=<f> l=<f> lp=<f> g=<f> r=<f> zs=<normal vectors ; separated> per=<nats> refl=<nats>
+        -> `<shape> <scale> <s> <draws> <proposal> <dot> <dotp> <factor> <alpha> <accept 0|1> <new u>`
+           or `exhausted` when no vector of the tape yields a point passing check_bounds
+    adapt.F kind=<tpcn|rwm> sigma=<f> iter=<f> acc=<f> sigma0=<f>   -> `<new sigma>`
+  Matrices / tapes: rows separated by `;`, entries by `,`.  Shapes are validated (`bad-op` otherwise).
+-/
 namespace Drv.C03
-open Drv
+open Drv Model.Kernel
+
+def parseRows? (s : String) : Option (List (List Float)) :=
+  if s.isEmpty || s == "-" then some [] else (s.splitOn ";").mapM (parseList? parseFloat?)
+
+def fArg (args : List (String × String)) (k : String) : Option Float := (getArg args k).bind parseFloat?
+def vArg (args : List (String × String)) (k : String) : Option (List Float) := (getArg args k).bind (parseList? parseFloat?)
+def mArg (args : List (String × String)) (k : String) : Option (List (List Float)) := (getArg args k).bind parseRows?
+
+def kindArg (args : List (String × String)) : Option Kind :=
+  match getArg args "kind" with
+  | some "tpcn" => some .tpcn
+  | some "rwm" => some .rwm
+  | _ => none
+
+def square (d : Nat) (m : List (List Float)) : Bool := m.length == d && m.all (·.length == d)
+
+def kstep (args : List (String × String)) : Option String := do
+  let kind ← kindArg args
+  let d ← (getArg args "d").bind String.toNat?
+  let u ← vArg args "u"
+  let mu ← vArg args "mu"
+  let chol ← mArg args "chol"
+  let invcov ← mArg args "invcov"
+  let zs ← mArg args "zs"
+  let per ← (getArg args "per").bind parseNatList?
+  let refl ← (getArg args "refl").bind parseNatList?
+  let nu ← fArg args "nu"
+  let sigma ← fArg args "sigma"
+  let beta ← fArg args "beta"
+  let l ← fArg args "l"
+  let lp ← fArg args "lp"
+  let g ← fArg args "g"
+  let r ← fArg args "r"
+  if d == 0 || u.length != d || mu.length != d || !square d chol || !square d invcov || !zs.all (·.length == d)
+      || !per.all (· < d) || !refl.all (· < d) then none
+  else
+    match step (α := Float) { kind, u, mu, chol, invcov, nu, sigma, beta, l, lp, g, r, zs, per, refl } with
+    | none => some "exhausted"
+    | some o =>
+      some (s!"{showFloat o.shape} {showFloat o.scale} {showFloat o.s} {o.draws} {showList showFloat o.prop} " ++
+            s!"{showFloat o.dot} {showFloat o.dotp} {showFloat o.factor} {showFloat o.alpha} {showBool o.accept} " ++
+            s!"{showList showFloat o.newU}")
+
+def adapt (args : List (String × String)) : Option String := do
+  let kind ← kindArg args
+  let sigma ← fArg args "sigma"
+  let iter ← fArg args "iter"
+  let acc ← fArg args "acc"
+  let sigma0 ← fArg args "sigma0"
+  match kind with
+  | .tpcn => some (showFloat (tpcnAdapt sigma iter acc sigma0))
+  | .rwm => some (showFloat (rwmAdapt sigma iter acc sigma0))
 
 def handle (cmd : String) (args : List (String × String)) : Option String :=
   match cmd with
+  | "kstep.F" => some ((kstep args).getD "bad-op")
+  | "adapt.F" => some ((adapt args).getD "bad-op")
   | _ => none
 
 end Drv.C03
